@@ -73,15 +73,38 @@ def spec (_ : Unit) (op : String) (obs : String) : String :=
       | "err-decode" :: _ => some .err
       | "panic" :: _ => some .panic
       | _ => none
-    match o?, arg? ws "axisdata", hexListArg? ws "axpar", natArg? ws "honest" with
-    | some o, some ad, some axpar, some honest =>
+    -- ground truth: `axisdata` from the line (bound to the header below), parity and honesty from `obs=`, which the
+    -- harness recomputes from the line with the real codec / nmt-rs on every run, corpus and replay lines included
+    let obsParts : Option (Bool × List Bytes) :=
+      match (arg? ws "obs").map (fun o => o.splitOn "/") with
+      | some [h, par] => (parseHexList par).map (fun p => (h == "1", p))
+      | _ => none
+    match o?, arg? ws "axisdata", obsParts, parseDah ws, natArg? ws "index", (arg? ws "axis").bind String.toInt? with
+    | some o, some ad, some (honest, axpar), some dah, some index, some axisI =>
       let axis : Option (List Bytes) := if ad == "none" then none else parseHexList ad
-      if o == .panic then "specfail C07/validate-panic validate panicked"
-      else if Lumina.Spec.C07.specValidate (fun _ => axpar) axis (honest == 1) o then "specok"
+      -- the axis shares on the line must be the ones the header commits to: their NMT root is the DAH's root
+      let bound : Bool :=
+        match axis with
+        | none => true
+        | some a =>
+          let w := a.length
+          let leaves := (List.range w).map (fun i =>
+            let d := a.getD i []
+            hashLeaf sha (if index < w / 2 ∧ i < w / 2 then d.take 29 else List.replicate 29 255) d)
+          let expected := if axisI = 0 then dah.rowRoot? index else dah.colRoot? index
+          match computeRoot sha true leaves with
+          | .ok r => expected == some r
+          | .error _ => false
+      if !bound then "specfail C07/stale-ground-truth the axis shares on the line are not the ones the header's DAH commits to"
+      else if o == .panic then "specfail C07/validate-panic validate panicked"
+      -- an axis wider than the 256 shards of the codec has no reference encoding: nothing can be proven about it, so no
+      -- proof may validate (and there is no completeness obligation)
+      else if Lumina.Spec.C07.specValidate (fun _ => axpar) (match axis with | some a => if a.length > 256 then none else some a | none => none)
+          honest o then "specok"
       else if o == .ok then
         "specfail C07/fraud-proof-accepted-for-codeword a fraud proof validated although the indicated axis is a correctly encoded codeword (or is no axis of the block)"
       else "specfail C07/honest-fraud-proof-rejected an honest proof of a corrupted axis did not validate"
-    | _, _, _, _ => "specfail C07/unparsed"
+    | _, _, _, _, _, _ => "specfail C07/unparsed"
   | [] => "specfail C07/unparsed"
 
 def handler : Driver.Handler Unit := { init := (), step := step, spec := spec }
